@@ -443,7 +443,9 @@ class Exec:
           va, vb = sa.get(k), sb.get(k)
           if va is None or vb is None:
             continue                                   # defined in one branch only: dead after the merge unless read (then unknown name)
-          if va.ty == vb.ty and va.s == vb.s and va.items is None:
+          if va.ty == "Dead" or vb.ty == "Dead":
+            store[k] = Val("Dead", k)                  # a loop variable that is dead on one path is dead after the merge
+          elif va.ty == vb.ty and va.s == vb.s and va.items is None:
             store[k] = va
           elif va.ty == vb.ty and va.items is None:
             store[k] = Val(va.ty, f"(if {c} then {va.s} else {vb.s})")
